@@ -19,10 +19,18 @@ CHECKS = {
     "C08": (MC, "TLC model checking (absent-record sessions in MC_Route / MC_Tamper) + replay + trace validation", "5 C08"),
     "C10": (MC, "TLC model checking of spec/Wire.tla (operational decoder model, all 20 suites) + verdict-table conformance of the real decoders + classifier-guided mutation", "5 C10"),
     "C11": (MC, "TLC model checking of spec/Wire.tla (NoInvalid) + every invalid class in every field through native, bincode and JSON decoders", "5 C11"),
+    "C12": ("exploration", "model-guided exploration under catch_unwind: Wire.tla verdict table + classifier-guided decoder inputs, TLC-generated behaviours with over-long parameters (MC_Long) and cross-delivered messages, recorded histories validated by TLC", "5 C12"),
     "C13": (MC, "TLC model checking (MC_Persist: Reload is the identity) + replay with a shadow execution without reloads on the same tapes", "5 C13"),
+    "C14": (MC, "TLC model checking (MC_Obliv) + replay: equality pattern of masking keys / requests / evaluation elements across blinding tapes, credential ids, seeds, static keys", "5 C14"),
     "C15": (MC, "TLC model checking (MC_Ksf: instance matrix) + replay with an instrumented KSF", "5 C15"),
+    "C16": (MC, "TLC model checking (Agreement, ExportKeySeparated, NoSecretOnWire) + replay with a scan of all messages and files for verbatim secrets + trace validation", "5 C16"),
+    "C17": (MC, "TLC model checking + replay of behaviours annotated with per-output tape dependencies: equal tapes, independent tapes, tapes altered from every draw boundary on", "5 C17"),
+    "C18": (MC, "TLC model checking (MC_Ext) + replay with a shadow execution holding all keys directly, and failure of every external-key call position", "5 C18"),
 }
 TEXT = {
+    "exploration": "Model-guided exploration: the TLA+ specifications (Wire.tla verdict table, MC_Long / MC_Tamper behaviours, OpaqueTrace) "
+                   "supply the inputs and the expected verdicts; every call into opaque-ke runs under catch_unwind and a panic or hang is "
+                   "the violation.  Sampling over concrete bytes, class-guided; not exhaustive.",
     MC: "The property is an invariant of the explicit TLA+ specification, checked exhaustively by TLC on bounded "
         "configurations; the specification is bound to the implementation by replaying TLC-generated behaviours into "
         "the real API (result class + equality pattern of all outputs) and/or by TLC validating executions recorded "
